@@ -52,6 +52,10 @@ def paragraph(draw):
         if brk == "\\\n" and nxt.lstrip("*_")[:1] in "[!":
             nxt = "w " + nxt  # steered away by construction: backslash hard break directly before a link (KF-C02-hardbreak-then-bracket)
         out += brk + draw(st.sampled_from(["", "", " ", "  "])) + nxt
+    # steered away by construction (KF-C02-hardbreak-then-bracket): a backslash hard break with a link or image later in
+    # the same paragraph
+    if "\\\n" in out and "[" in out.split("\\\n", 1)[1]:
+        out = out.replace("\\\n", "  \n")
     # a paragraph must not start with something that opens another block
     if out[:1] in "#>-+*=0123456789<`~[" or out.startswith(("    ", "_")):
         out = "w " + out
